@@ -161,6 +161,29 @@ def slow_teardown(sid, fe=False):
     return s.done()
 
 
+def aborted_upload(sid, size):
+    """the upload of the runtime's answer breaks off in the middle of the body (the runtime dies): what had arrived is
+    not an answer - the caller gets the one outcome of the failed invocation (the runtime's exit), and the next event
+    makes its round trip"""
+    s = Scn(sid, ext=[], timeout_ms=2000, opWaitMs=8000)
+    s.meta(family="roundtrip", kind="aborted-upload", size=size)
+    tags = s.boot({})
+    s.round(tags, {})
+    it = s.invoke(size=9, seed=51)
+    s.wait(tags["rt"])
+    s.hold("drv.body:u1", 1)
+    post = s.call("rt", "response", async_=True, id="current", size=size, seed=52,
+                  headers={"X-Verif-Slow-Body": "u1", "X-Verif-Abort-Body": "1"})
+    s.until_held("drv.body:u1")
+    s.sleep(20)
+    s.release("drv.body:u1")
+    s.wait(post)
+    s.exit("rt", code=1)
+    s.wait(it)
+    s.recover({})
+    return s.done()
+
+
 def fe_stalled(sid, size, second):
     """the connection of caller 1 stalls when the front end writes the answer (the peer is not reading); meanwhile
     caller 2 is served in full (the emulator is free again as soon as invocation 1 is over); when caller 1's
@@ -223,7 +246,8 @@ def run(ctx):
     # E1: the property predicates as invariants of the composite (spec/MC_Rapid.tla)
     mcrapid.check(ctx, ['OkHasBody', 'StreamOwnerIsReserver', 'NoGhostInvoke'])
     ctx.assumptions += sc.ASSUME
-    sc.run_families(ctx, scenarios(ctx) + [slow_teardown("c01-slowtd")], "roundtrip")
+    sc.run_families(ctx, scenarios(ctx) + [slow_teardown("c01-slowtd"), aborted_upload("c01-abort1", 65536)]
+                    + ([] if ctx.quick else [aborted_upload("c01-abort2", 2), aborted_upload("c01-abort3", 3 * 1024 * 1024)]), "roundtrip")
     # the same histories through the real HTTP front end (cmd/aws-lambda-rie InvokeHandler), validated against
     # Trace_Rapid (core events) and Trace_FrontEnd (the handler's own steps and its status mapping)
     sc.run_families(ctx, fe_scenarios(ctx) + fe_stalled_scenarios(ctx) + [slow_teardown("c01-fe-slowtd", fe=True)], "frontend")
